@@ -159,6 +159,7 @@ func (p *Program) runJobs(fns []*ssa.Function, cfg SolverCfg) []*Job {
 		j      *Job
 		o      *Obligation
 		script string
+		split  []string
 	}
 	var pfs []pf
 	for i, j := range jobs {
@@ -166,7 +167,11 @@ func (p *Program) runJobs(fns []*ssa.Function, cfg SolverCfg) []*Job {
 			if o.Status == "proved" || (o.Status == "failed" && (o.Model != nil || o.Kind == "pre-sat")) {
 				continue
 			}
-			pfs = append(pfs, pf{j, o, buildSingle(j, o, cfg.TimeoutMs, true)})
+			q := pf{j: j, o: o, script: buildSingle(j, o, cfg.TimeoutMs, true)}
+			for _, c := range splitCases(j) {
+				q.split = append(q.split, buildSingle(j, o, cfg.TimeoutMs, true, c...))
+			}
+			pfs = append(pfs, q)
 		}
 	}
 	for _, q := range pfs {
@@ -176,6 +181,26 @@ func (p *Program) runJobs(fns []*ssa.Function, cfg SolverCfg) []*Job {
 			sem <- struct{}{}
 			defer func() { <-sem }()
 			portfolioScript(q.j, q.o, q.script, cfg)
+			if q.o.Status == "unknown" && len(q.split) > 0 {
+				// all cases unsat => proved; any case sat => failed with that model
+				all := true
+				for _, sc := range q.split {
+					tmp := &Obligation{Name: q.o.Name, Kind: q.o.Kind}
+					portfolioScript(q.j, tmp, sc, cfg)
+					if tmp.Status == "failed" {
+						q.o.Status, q.o.Solver, q.o.Output, q.o.Model = "failed", tmp.Solver+" (case split)", tmp.Output, tmp.Model
+						all = false
+						break
+					}
+					if tmp.Status != "proved" {
+						all = false
+					}
+					q.o.Secs += tmp.Secs
+				}
+				if all {
+					q.o.Status, q.o.Solver = "proved", "portfolio (case split over finite domains)"
+				}
+			}
 		}(q)
 	}
 	wg.Wait()
